@@ -152,22 +152,38 @@ def check(ctx):
             raise AnalysisBroken('do_move: half-move clock written inside a loop')
         events.append((ev[0], all_guards(do, n), n))
     MOVER, VICTIM = 'get_piece_kind(_board[from(move)])', 'make_piece_kind(_board[to(move)])'
+    # A read of the board made after the board primitives have run sees the position AFTER the move (printed _board'): on the
+    # target square stands the moved piece, or the promotion piece. Such a read is only given a value when no board write can
+    # follow it (a read between two primitives is outside what the table models).
+    nm.mark_post = {'_board'}
+    for e, gf, n in events:
+        for c, t in gf:
+            for x in walk(c):
+                r = x.get('ref') or {}
+                if r.get('k') == 'Field' and short(r['n']) == '_board' and nm.written_before(x, r['n']) and nm.written_after(x, r['n']):
+                    raise AnalysisBroken('do_move: the half-move clock depends on a board read at %s that lies between two board '
+                                         'updates' % do.loc(x))
     for C in (False, True):
         for P in (False, True):
             for X in (False, True):
-                val = {'castling(move)': cas['KING_CASTLING'] if C else cas['NO_CASTLING'],
-                       MOVER: kinds['PAWN'] if P else kinds['KNIGHT'], VICTIM: kinds['ROOK'] if X else kinds['NO_PIECE_KIND'],
-                       '_board[to(move)]': 4 if X else 0}
-                try:
-                    fired = [e for e, gf, n in events if all(cond_value(nm, c, val) == t for c, t in gf)]
-                except Unknown as u:
-                    raise AnalysisBroken('do_move: the half-move clock depends on `%s`, which the rule does not know' % u)
-                want = 'inc' if (C or (not P and not X)) else 'reset'
-                cls = 'castling' if C else 'pawn=%s,capture=%s' % (P, X)
-                if C and (P or X):
-                    continue
-                ctx.ob('C02.R2.clock', cls, fired == [want],
-                       'half-move clock for a %s move: written exactly once, as %s (found %s)' % (cls, want, fired), site=do.loc(hm_nodes[0]))
+                for R in ((False, True) if (P and not C) else (False,)):
+                    after_kind = kinds['QUEEN'] if R else (kinds['PAWN'] if P else kinds['KNIGHT'])
+                    val = {'castling(move)': cas['KING_CASTLING'] if C else cas['NO_CASTLING'],
+                           MOVER: kinds['PAWN'] if P else kinds['KNIGHT'], VICTIM: kinds['ROOK'] if X else kinds['NO_PIECE_KIND'],
+                           '_board[to(move)]': 4 if X else 0,
+                           "get_piece_kind(_board'[to(move)])": after_kind, "make_piece_kind(_board'[to(move)])": after_kind,
+                           "_board'[to(move)]": 1, "_board'[from(move)]": 0,
+                           'promotion(move)': kinds['QUEEN'] if R else kinds['NO_PIECE_KIND']}
+                    try:
+                        fired = [e for e, gf, n in events if all(cond_value(nm, c, val) == t for c, t in gf)]
+                    except Unknown as u:
+                        raise AnalysisBroken('do_move: the half-move clock depends on `%s`, which the rule does not know' % u)
+                    want = 'inc' if (C or (not P and not X)) else 'reset'
+                    cls = 'castling' if C else 'pawn=%s,capture=%s%s' % (P, X, ',promotion' if R else '')
+                    if C and (P or X):
+                        continue
+                    ctx.ob('C02.R2.clock', cls, fired == [want],
+                           'half-move clock for a %s move: written exactly once, as %s (found %s)' % (cls, want, fired), site=do.loc(hm_nodes[0]))
 
     # ---- R3 castling-right revocation --------------------------------------------------------------------------
     rev = []
